@@ -68,6 +68,8 @@ static u8* g_guard = nullptr;
 static long g_page = 4096;
 static volatile const char* g_cur_what = nullptr;  // what the library is working on (for the fault handler)
 static std::string g_cur_case;
+static const char* volatile g_cur_gram_id = nullptr;         // grammar run in progress: its case string is
+static const std::string* volatile g_cur_gram_in = nullptr;  //   only built when a crash has to be reported
 
 static volatile bool g_cur_is_append = false;  // current call is utf8_append_utf32( "ab", g_cur_cp )
 static volatile unsigned g_cur_cp = 0;
@@ -86,6 +88,9 @@ static void crash_report( const char* how )
       char cs[ 16 ];
       snprintf( cs, sizeof cs, "%08x", unsigned( g_cur_cp ) );
       g_cur_case = "append:" + std::string( cs ) + ":6162";
+   }
+   else if( g_cur_gram_id && g_cur_gram_in ) {
+      g_cur_case = "g:" + std::string( g_cur_gram_id ) + ":" + vf::hex( *g_cur_gram_in );
    }
    vf::violation( "C17|" + what + " " + how, "\"expected\":\"normal return or parse_error\",\"observed\":\"" + std::string( how ) + "\"", g_cur_case );
    vf::st.exhaustive = false;
@@ -503,10 +508,13 @@ static long n_accept = 0, n_reject_cp = 0, n_reject_lang = 0, n_reject_by_except
 static bool check_grammar( const GramSpec& g, const std::string& in, const bool want_sample = false )
 {
    const Expect x = oracle_expect( g, in );
-   g_cur_case = "g:" + std::string( g.id ) + ":" + vf::hex( in );
+   g_cur_gram_id = g.id;
+   g_cur_gram_in = &in;
    g_cur_what = g.helper;
    const Outcome o = g.run( place( in.data(), in.size() ), in.size() );
    g_cur_what = nullptr;
+   g_cur_gram_id = nullptr;
+   g_cur_gram_in = nullptr;
    ++vf::st.evaluations;
    std::string cls;
    if( x.kind == E_ACCEPT ) {
@@ -525,12 +533,14 @@ static bool check_grammar( const GramSpec& g, const std::string& in, const bool 
       else
          ( o.obs == O_PARSE_ERROR ? n_reject_by_exception : n_reject_by_false )++;
    }
-   if( x.kind != E_ACCEPT || x.bytes.size() > 1 ) nontrivial( vf::hstr( in, vf::hstr( g.id ) ) );
+   if( g_nt_quota > 0 && ( x.kind != E_ACCEPT || x.bytes.size() > 1 ) ) nontrivial( vf::hstr( in, vf::hstr( g.id ) ) );
+   if( cls.empty() && !want_sample ) return true;
+   // descriptions are only needed for a sample or a violation
    const std::string exp_s = x.kind == E_ACCEPT ? "accept, bytes " + vf::hex( x.bytes ) : "reject (" + x.why + ")";
    const std::string obs_s = std::string( obs_name( o.obs ) ) + ( o.obs == O_OK ? ", bytes " + vf::hex( o.s ) : ( o.what.empty() ? "" : ": " + o.what ) );
    if( want_sample ) vf::sample( "{\"grammar\":\"" + std::string( g.id ) + "\",\"input\":\"" + vf::jesc( vf::show( in ) ) + "\",\"expected\":\"" + vf::jesc( exp_s ) + "\",\"observed\":\"" + vf::jesc( obs_s ) + "\"}", 8 );
    if( cls.empty() ) return true;
-   vf::violation( "C17|" + std::string( g.helper ) + " " + cls, "\"grammar\":\"" + std::string( g.id ) + "\",\"input\":\"" + vf::jesc( vf::show( in ) ) + "\",\"expected\":\"" + vf::jesc( exp_s ) + "\",\"observed\":\"" + vf::jesc( obs_s ) + "\"", g_cur_case );
+   vf::violation( "C17|" + std::string( g.helper ) + " " + cls, "\"grammar\":\"" + std::string( g.id ) + "\",\"input\":\"" + vf::jesc( vf::show( in ) ) + "\",\"expected\":\"" + vf::jesc( exp_s ) + "\",\"observed\":\"" + vf::jesc( obs_s ) + "\"", "g:" + std::string( g.id ) + ":" + vf::hex( in ) );
    return false;
 }
 
